@@ -1,4 +1,5 @@
 """C11 — parsing is insensitive to inter-token whitespace and keyword letter case."""
+import re
 import gen, streams, grammar, oracles
 from common import *
 import sqlparse
@@ -7,7 +8,7 @@ from sqlparse import lexer, tokens as T
 RULE = ('grammar scripts (comment-free) rendered once, then re-spelled: every whitespace run between tokens and inside multi-word keywords replaced by another non-empty run of blanks/tabs/line breaks, '
         'every keyword re-cased; compared: statement count, get_type, tree shape (classes, nesting, significant leaves with keywords normalised); non-trivial = distinct (script, respelling) pair whose texts differ')
 ASSUMPTIONS = ['lexical clause (multi-word keywords are one token for every inner whitespace and casing) sampled through S-LEX on the respelled texts']
-PARTIAL = ['splitter: view-invariance theorem; grouping: respell_group (all 25 passes commute with every admissible re-spelling: keyword case, whitespace inside multi-word keywords, values of existing whitespace tokens) is a theorem; changing the NUMBER or TYPE of whitespace tokens (one token per whitespace character, blank vs line break) is established by the metamorphic oracle on the real code and S-TREE on both spellings']
+PARTIAL = ['splitter: view-invariance theorem; grouping: respell_group (values of existing tokens: keyword case, inner whitespace of multi-word keywords, whitespace values) and whitespace_count_invariant (number/type of whitespace tokens, on the decidable domain InDomain: no comment token, no := token, WsDomain) are theorems over all 25 passes; with comments or := the statement is false for the library (known findings KF-C11-1/2); the lexical step (re-spelled text lexes to WsEquiv token lists) and get_type are checked by the metamorphic oracle on the real code']
 WS = [' ', '  ', '\t', '\n', '\r\n', ' \n ', '\n\n', '\t ']
 
 
@@ -136,8 +137,42 @@ def run(ctx):
         streams.s_split(ctx, sub)
         if hasattr(streams, 's_tree'):
             streams.s_tree(ctx, sub)
+        # DOMAIN(wsdomain): the hypothesis of whitespace_count_invariant evaluated by the Lean driver on both spellings; where both are in
+        # the domain the model's skeletons (`skel`) of the two spellings must be equal (the theorem's prediction), and so must the real trees
+        dom = ctx.model.ask(['wsdomain 200 ' + hexs(t) for t in sub])
+        sk = ctx.model.ask(['skel 200 ' + hexs(t) for t in sub])
+        indom = pairs = 0
+        for i in range(0, len(sub) - 1, 2):
+            ctx.stream('DOMAIN(wsdomain)', inputs=1, lines=2)
+            da, db = dom[i].split(), dom[i + 1].split()
+            if da[:1] != ['ok'] or db[:1] != ['ok']:
+                continue
+            pairs += 1
+            ok = lambda ws: all(w.split(':')[0] == '111' for w in ws[1:])
+            if ok(da) and ok(db):
+                indom += 1
+                # the two spellings also differ in keyword case (respell_group covers values): compare classes, nesting and leaf types
+                shp = lambda line: re.sub(r'\[ (\S+)[^\]]*\]', r'[\1]', line)
+                if shp(sk[i]) != shp(sk[i + 1]):
+                    ctx.mismatch('DOMAIN(wsdomain)', [sub[i], sub[i + 1]], sk[i + 1][:200], sk[i][:200])
+        ctx.dist['wsdomain_pairs_in_domain'] = indom
+        ctx.dist['wsdomain_pairs'] = pairs
     else:
         ctx.notes.append('model driver unavailable: correspondence streams skipped')
+
+
+def classify(f, kf):
+    from sqlparse import lexer, tokens as T
+    inp = f.get('input')
+    if not (isinstance(inp, (list, tuple)) and len(inp) == 2 and all(isinstance(x, str) for x in inp)):
+        return None
+    toks = [t for x in inp for t in lexer.tokenize(x)]
+    for k in kf:
+        if k['id'] == 'KF-C11-2' and any(tt is T.Assignment for tt, _ in toks):
+            return k['id']
+        if k['id'] == 'KF-C11-1' and any(tt in T.Comment for tt, _ in toks):
+            return k['id']
+    return None
 
 
 def replay_known(ctx, k):
